@@ -25,6 +25,28 @@ def leaf_atom(x):
     return ("is", "%s.get_children()" % x, "None")
 
 
+def cell_atoms(model, cls, fn, g, x, at):
+    """Guard facts about the cell named x at CFG node `at`, including facts inherited through its definitions: when
+    `x is not None` holds at `at`, every reaching definition of x other than `x = None` must be a copy `x = y`, and the facts
+    that guard that copy about y hold for x (the guards were evaluated on the very cell that x then names)."""
+    out = list(atoms_at(g, at))
+    if not x.isidentifier() or ("is not", x, "None") not in out:
+        return out
+    fc = CS.FnCtx(model, E.Effects(model), cls, fn)
+    ds, entry = fc.reaching(x, fc.cfg.node_of(at.ast))
+    real = [(n, r) for n, r in ds if not (r[0] == "assign" and isinstance(r[1], ast.Constant) and r[1].value is None)]
+    if not real or any(r[0] != "assign" or not isinstance(r[1], ast.Name) for n, r in real):
+        return out
+    inherited = None
+    for n, r in real:
+        y = r[1].id
+        fs = set()
+        for a in atoms_at(g, g.node_of(n.ast)):
+            fs.add(tuple(part.replace(y, x) if isinstance(part, str) and (part == y or part.startswith(y + ".")) else part for part in a))
+        inherited = fs if inherited is None else (inherited & fs)
+    return out + sorted(inherited or [])
+
+
 # ---------------------------------------------------------------------------
 
 
@@ -42,7 +64,7 @@ def check_soo(ctx):
     if ok:
         x = norm_src(rets[0].value.func.value)
         at = g.node_of(rets[0])
-        at_atoms = atoms_at(g, at)
+        at_atoms = cell_atoms(model, "SOO", pull, g, x, at)
         okg = ("falsy", "%s.visited" % x, "") in at_atoms and leaf_atom(x) in at_atoms
         ctx.ob("R08-ONCE", okg, c.file, q, norm_src(rets[0]), "handed out only if it is a leaf that was never evaluated" if okg else "guards: %s" % at_atoms,
                rets[0].lineno)
